@@ -24,6 +24,7 @@ class Ctx:
         self.decided = []
         self.undecided = []
         self.rule_counts = {}
+        self.floor_failures = []
         self.extra = {}
         self.t0 = time.time()
 
@@ -55,8 +56,9 @@ class Ctx:
     def floor(self, rule, found, minimum, what):
         """Instance floor: fewer instances than confirmed by hand => the rule lost its anchor."""
         if found < minimum:
-            raise AnalysisError('%s: only %d instance(s) of %s found, at least %d confirmed on the pinned tree'
-                                % (rule, found, what, minimum))
+            # deferred: a violation found elsewhere in the run takes precedence over a lost anchor
+            self.floor_failures.append('%s: only %d instance(s) of %s found, at least %d confirmed on the pinned tree'
+                                       % (rule, found, what, minimum))
 
     def note(self, text):
         self.notes.append(text)
